@@ -44,8 +44,14 @@ def _incon(why):
 
 
 def _check_cov(ctx, r, what):
-    if r.coverage_zero:
-        _incon("%s: actions never taken (vacuity): %s" % (what, ", ".join(sorted(set(r.coverage_zero)))))
+    """Vacuity guard on the final coverage dump (TLC also prints intermediate ones)."""
+    import re
+    k = r.log.rfind("The coverage statistics at")
+    if k < 0:
+        _incon("%s: no coverage statistics in the TLC log" % what)
+    zero = re.findall(r"^<(\w+) line [^>]*>: 0:0$", r.log[k:], re.M)
+    if zero:
+        _incon("%s: actions never taken (vacuity): %s" % (what, ", ".join(sorted(set(zero)))))
 
 
 def graph_part(ctx, W):
